@@ -706,6 +706,8 @@ pub enum Edit {
     MoveSecret { sec: u16, folder: u16 },
     /// change a folder's password: rewrites the folder log and updates the identity log
     ChangeFolderPassword { folder: u16, word: String },
+    /// update only the meta data of a secret: favourite flag and tags, label and value unchanged
+    SetFavorite { sec: u16, on: bool, tag: Option<String> },
 }
 
 impl Edit {
@@ -718,7 +720,7 @@ impl Edit {
             Edit::TrustDevice { .. } | Edit::RevokeDevice { .. } => "device",
             Edit::FileEvent { .. } => "files",
             Edit::CompactFolder { .. } | Edit::ChangeFolderPassword { .. } => "rewrite",
-            Edit::MoveSecret { .. } => "folder",
+            Edit::MoveSecret { .. } | Edit::SetFavorite { .. } => "folder",
         }
     }
 }
@@ -893,6 +895,26 @@ async fn apply_edit_inner(w: &mut SyncWorld, d: usize, e: &Edit) -> Result<bool,
             let others: Vec<VaultId> = list.iter().map(|(f, _)| *f).filter(|f| *f != from).collect();
             let to = others[pick(*folder, others.len())];
             a.move_secret(&sid, &from, &to, Default::default()).await.map_err(hf("edit/move-secret", "move_secret"))?;
+        }
+        Edit::SetFavorite { sec, on, tag } => {
+            if flat.is_empty() {
+                return Ok(false);
+            }
+            let (fid, sid) = flat[pick(*sec, flat.len())];
+            let (row, _) = a.read_secret(&sid, Some(&fid)).await.map_err(hf("edit/set-favorite", "read_secret"))?;
+            let mut meta = row.meta().clone();
+            if meta.favorite() == *on && tag.is_none() {
+                return Ok(false);
+            }
+            meta.set_favorite(*on);
+            if let Some(t) = tag {
+                let mut tags = meta.tags().clone();
+                tags.insert(t.clone());
+                meta.set_tags(tags);
+            }
+            a.update_secret(&sid, meta, None, AccessOptions { folder: Some(fid), ..Default::default() })
+                .await
+                .map_err(hf("edit/set-favorite", "update_secret(meta only)"))?;
         }
         Edit::ChangeFolderPassword { folder, word } => {
             let fid = list[pick(*folder, list.len())].0;
